@@ -170,6 +170,8 @@ pub struct Facts {
     pub skipped_ops: u32,
     pub overwrite_or_remove: u32,
     pub live_comps_at_teardown: u32,
+    pub restrict_other_live: u32,
+    pub restrict_other_stale: u32,
 }
 
 pub struct Interp {
@@ -1157,6 +1159,7 @@ impl Interp {
                 if let Some((sh, ex, exm)) = r {
                     if self.alive(hi) {
                         let m = self.comps[slot].get(&e.id()).cloned();
+                        self.facts.restrict_other_live += 1;
                         ensure!("C13", "get_other", sh == m && ex == m && exm == m,
                             "get_other({:?}) in {:?} saw {:?} / {:?} / {:?}, expected {:?}", e, kind, sh, ex, exm, m);
                         if let Some(x) = self.comps[slot].get_mut(&e.id()) {
@@ -1166,6 +1169,7 @@ impl Interp {
                         }
                     } else {
                         self.stale_access(slot, e);
+                        self.facts.restrict_other_stale += 1;
                         ensure!("C03", "stale-get_other", sh.is_none() && ex.is_none() && exm.is_none(),
                             "get_other through the dead handle {:?} in {:?} returned {:?} / {:?} / {:?}", e, kind, sh, ex, exm);
                         self.check_slot_index("C03", slot, e.id(), "get_other through a dead handle")?;
@@ -1620,16 +1624,18 @@ pub struct Profile {
     pub storage: u32,
     pub stale: u32,
     pub lazy: u32,
+    pub restrict: u32,
     pub max_ops: usize,
     pub min_storages: usize,
     pub max_storages: usize,
 }
 
-pub const ALLOC_PROFILE: Profile = Profile { create: 10, delete: 10, maintain: 3, storage: 2, stale: 1, lazy: 1, max_ops: 40, min_storages: 1, max_storages: 3 };
-pub const STALE_PROFILE: Profile = Profile { create: 6, delete: 5, maintain: 2, storage: 4, stale: 10, lazy: 1, max_ops: 40, min_storages: 2, max_storages: 5 };
-pub const PURGE_PROFILE: Profile = Profile { create: 8, delete: 7, maintain: 2, storage: 8, stale: 1, lazy: 1, max_ops: 40, min_storages: 3, max_storages: 8 };
-pub const LAZY_PROFILE: Profile = Profile { create: 5, delete: 4, maintain: 4, storage: 3, stale: 1, lazy: 12, max_ops: 40, min_storages: 2, max_storages: 4 };
-pub const MIXED_PROFILE: Profile = Profile { create: 6, delete: 5, maintain: 2, storage: 8, stale: 3, lazy: 4, max_ops: 40, min_storages: 2, max_storages: 6 };
+pub const ALLOC_PROFILE: Profile = Profile { create: 10, delete: 10, maintain: 3, storage: 2, stale: 1, lazy: 1, restrict: 0, max_ops: 40, min_storages: 1, max_storages: 3 };
+pub const STALE_PROFILE: Profile = Profile { create: 6, delete: 5, maintain: 2, storage: 4, stale: 10, lazy: 1, restrict: 0, max_ops: 40, min_storages: 2, max_storages: 5 };
+pub const PURGE_PROFILE: Profile = Profile { create: 8, delete: 7, maintain: 2, storage: 8, stale: 1, lazy: 1, restrict: 0, max_ops: 40, min_storages: 3, max_storages: 8 };
+pub const LAZY_PROFILE: Profile = Profile { create: 5, delete: 4, maintain: 4, storage: 3, stale: 1, lazy: 12, restrict: 0, max_ops: 40, min_storages: 2, max_storages: 4 };
+pub const MIXED_PROFILE: Profile = Profile { create: 6, delete: 5, maintain: 2, storage: 8, stale: 3, lazy: 4, restrict: 0, max_ops: 40, min_storages: 2, max_storages: 6 };
+pub const RESTRICT_PROFILE: Profile = Profile { create: 6, delete: 5, maintain: 2, storage: 6, stale: 2, lazy: 0, restrict: 10, max_ops: 40, min_storages: 2, max_storages: 5 };
 
 pub fn op_strategy(p: Profile) -> BoxedStrategy<Op> {
     let create = prop_oneof![
@@ -1677,6 +1683,7 @@ pub fn op_strategy(p: Profile) -> BoxedStrategy<Op> {
         4 => exec_steps(2).prop_map(Op::LazyExec),
         1 => comps().prop_map(|c| Op::LazyCreate { comps: c }),
     ];
+    let restrict = (0u8..8, sel(), 1u32..1000).prop_map(|(s, h, p)| Op::RestrictOther(s, h, p));
     prop_oneof![
         p.create => create,
         p.delete => delete,
@@ -1684,6 +1691,7 @@ pub fn op_strategy(p: Profile) -> BoxedStrategy<Op> {
         p.storage => storage,
         p.stale => stale,
         p.lazy => lazy,
+        p.restrict => restrict,
     ]
     .boxed()
 }
